@@ -503,6 +503,8 @@ impl<T: Transport, E: UtpEnvironment> Dispatcher<T, E> {
                     // This is super rare, can be warn.
                     warn!("too many concurrent connectins to {addr}");
                     let _ = sender.tx.send(Err(Error::TooManyActiveConnections));
+                    #[cfg(librqbit_utp_verif)]
+                    self.verif_tab("connecting_full", addr, self.next_connection_id);
                     return;
                 }
                 let conn_id = self.get_next_free_conn_id(addr);
